@@ -137,10 +137,10 @@ let () =
   let cfg = parse_config (Filename.concat dir "config.yaml") in
   let bls = load_bls (Filename.concat dir "bls.txt") in
   let engine_verdict = ref true in
-  let engine_seen : (string * string list * string) list ref = ref [] in
+  let engine_seen : (value * string list * string) list ref = ref [] in
+  let last_trans : (int * fork) option ref = ref None in
   let engine payload vhs parent =
-    ignore payload;
-    engine_seen := ("", List.map (fun h -> hex_of_string (string_of_bytes h)) vhs, hex_of_string (string_of_bytes parent)) :: !engine_seen;
+    engine_seen := (payload, List.map (fun h -> hex_of_string (string_of_bytes h)) vhs, hex_of_string (string_of_bytes parent)) :: !engine_seen;
     !engine_verdict in
   let env = mk_env cfg (bls_verify1 bls) (bls_fav bls) (bls_agg bls) engine in
   let states : (string, fork * string) Hashtbl.t = Hashtbl.create 100 in
@@ -193,6 +193,8 @@ let () =
                engine_verdict := (eng = "valid");
                engine_seen := [];
                let res = run_transition env f (bytes_of_string b) bf (bytes_of_string bb) (validate = "1") in
+               let seen = !engine_seen in
+               last_trans := Some (lineno, bf);
                let why = match res with
                  | RReject ->
                      let stage = diagnose_transition env f (bytes_of_string b) bf (bytes_of_string bb) (validate = "1") in
@@ -205,6 +207,7 @@ let () =
                        else "" in
                      " spec-stage=" ^ stage ^ extra
                  | _ -> "" in
+               engine_seen := seen;
                judge lineno res post ("trans[" ^ String.concat " " _tags ^ "]" ^ why)
            | _ -> report lineno false "trans: unknown pre/blk id")
       | "genesis" :: hash :: time :: deps :: post :: valid :: _gtags when want ->
@@ -260,7 +263,18 @@ let () =
                      (match ev.ev_sync_next with Some l -> expect "sync_next" (Hashtbl.find_opt tbl "sync_next") (ints l) | None -> ());
                      report lineno (!bad = []) (Printf.sprintf "epc-%s %s" label (String.concat ";" (List.rev !bad))) in
                    check live "live"; check fresh "fresh")
-      | "engine" :: _ -> ()
+      | "engine" :: tl :: proot :: vhs :: parent :: _etags2 ->
+          (* what zrnt showed the engine for the preceding transition vs what the Spec shows *)
+          (match !last_trans, !engine_seen with
+           | Some (l, bf), (p, mvhs, mparent) :: _ when string_of_int l = tl ->
+               let mroot = hex_of_string (string_of_bytes (payload_root env bf p)) in
+               let bad = ref [] in
+               if mroot <> proot then bad := "payload" :: !bad;
+               let vhs = if vhs = "[]" then "" else vhs in
+               if vhs <> "-" && String.concat "," mvhs <> vhs then bad := "versioned_hashes" :: !bad;
+               if parent <> "-" && mparent <> parent then bad := "parent_beacon_root" :: !bad;
+               report lineno (!bad = []) ("engine-args " ^ String.concat "," !bad)
+           | _ -> ())
       | "reload" :: _ -> ()
       | "cancel" :: _ -> ()
       | _ -> if want then incr nskip)
